@@ -20,19 +20,28 @@ def find_builder(ctx):
         raise FailClosed("pub fn streaming_body not found uniquely")
     fn = sb[0]["path"]
     outs = [o for o in ctx.px(fn) if o.kind == "return"]
-    if len(outs) != 1 or not is_agg(outs[0].value):
-        raise FailClosed("streaming_body is not a single straight-line constructor")
+    if not outs or not all(is_agg(o.value) for o in outs):
+        raise FailClosed("streaming_body does not return a builder aggregate on every path")
     v = outs[0].value
     adt = v[2]
     roles = {}
-    for name, t in v[4]:
-        s = repr(t)
-        if isinstance(t, tuple) and t[0] == "call" and t[1].split("::")[-1] == "should_gzip":
-            roles["sg"] = name
-            roles["sg_term"] = t
-        elif "http::Method::HEAD" in s:
-            roles["bn"] = name
-            roles["bn_term"] = t
+    a0 = ctx.facts.adts[adt]
+    bools = [f["name"] for f in a0["variants"][0]["fields"] if f["ty"] == "bool"]
+    for o in outs:
+        for name, t in o.value[4]:
+            s = repr(t)
+            if isinstance(t, tuple) and t[0] == "call" and t[1].split("::")[-1] == "should_gzip":
+                roles["sg"] = name
+                roles["sg_term"] = t
+            elif "http::Method::HEAD" in s and name in bools:
+                roles["bn"] = name
+                roles["bn_term"] = t
+    if "sg" in roles and "bn" not in roles:
+        rest = [b for b in bools if b != roles["sg"]]
+        if len(rest) == 1:
+            roles["bn"] = rest[0]
+            roles["bn_term"] = None
+    roles["ctor_outs"] = outs
     a = ctx.facts.adts[adt]
     for f in a["variants"][0]["fields"]:
         if f["ty"] == "u32":
@@ -44,7 +53,7 @@ def find_builder(ctx):
     build = inherent_fn(ctx, adt, "build")
     if len(build) != 1:
         raise FailClosed("builder has no unique `build`")
-    return {"fn": fn, "adt": adt, "roles": roles, "build": build[0], "ctor_value": v, "ctor_out": outs[0]}
+    return {"fn": fn, "adt": adt, "roles": roles, "build": build[0], "ctor_value": v, "ctor_out": outs[0], "ctor_outs": outs}
 
 
 def gzip_ctor(ctx):
@@ -67,15 +76,38 @@ def gzip_ctor(ctx):
 def head_no_writer(ctx, rule):
     B = find_builder(ctx)
     r = B["roles"]
-    bn = r["bn_term"]
-    # BN == not (method == HEAD)
-    s = repr(bn)
-    okk = isinstance(bn, tuple) and ((bn[0] == "unop" and bn[1] == "Not" and bn[2][0] == "eq") or bn[0] == "eq")
-    neg = isinstance(bn, tuple) and bn[0] == "unop" and bn[1] == "Not"
-    if not okk or not neg or "http::Method::HEAD" not in s or "AsRequest::method" not in s:
-        ctx.violation(rule, rule + "|body-needed", "the builder's body-needed flag is %s, not `request method != HEAD`" % short(bn, 120))
-    else:
-        ctx.ok(rule, "body_needed == (AsRequest::method(req) != Method::HEAD)")
+    # BN == (method != HEAD): evaluate the constructor's rows for method in {GET, HEAD, POST}
+    trie = Trie(B["ctor_outs"])
+    badm = []
+    for meth in ("GET", "HEAD", "POST"):
+        def calls(name, args, term, meth=meth):
+            last = name.split("::")[-1]
+            if name.endswith("AsRequest::method") or last == "method":
+                return "http::Method::" + meth
+            if last in ("should_gzip", "headers"):
+                return 0
+            raise Stuck("call %s" % name)
+
+        def extra(ev, t):
+            if t[0] == "named":
+                return t[1]
+            return NotImplemented
+        ev = Evaluator({1: "REQ"}, calls=calls, extra=extra)
+        try:
+            hits = trie.select(ev)
+            if len(hits) != 1:
+                raise Stuck("%d rows" % len(hits))
+            got = ev.ev(agg_get(hits[0].value, r["bn"]))
+        except Stuck as e:
+            ctx.violation(rule, rule + "|body-needed-unrecognised", "UNRECOGNISED: the body-needed flag cannot be evaluated (%s)" % e)
+            badm = None
+            break
+        if bool(got) != (meth != "HEAD"):
+            badm.append("%s -> body_needed=%s" % (meth, bool(got)))
+    if badm:
+        ctx.violation(rule, rule + "|body-needed", "the builder's body-needed flag is not `request method != HEAD`: %s" % ", ".join(badm))
+    elif badm is not None:
+        ctx.ok(rule, "body_needed == (AsRequest::method(req) != Method::HEAD) for GET / HEAD / POST")
     rows = [o for o in ctx.px(B["build"]) if o.kind == "return"]
     bnf = ("field", ("param", 1), r["bn"])
     n = 0
@@ -268,6 +300,10 @@ def writer_delegation(ctx, rule):
                 pass
             dead_after = (is_agg(post) and post[3] == G["dead"])
             # rows: is_err() true -> Dead; false -> state kept
+            if inner_v is None:
+                ctx.violation(rule, "%s|%s|%s|result-not-inspected" % (rule, meth, var), "%s (state %s) returns without inspecting the inner result: an inner error would leave the writer alive" % (meth, var),
+                              where=where(calls[0]))
+                continue
             if inner_v == "Err" and not dead_after:
                 ctx.violation(rule, "%s|%s|%s|err-keeps-state" % (rule, meth, var), "an inner %s error does not mark the writer dead" % meth)
                 continue
